@@ -42,6 +42,7 @@ def gen_case(rng, tier):
         prof["w_call"] = max(prof["w_call"], 2)
     prof["prethread"] = rng.choice([0, 0, 0.3, 0.7])  # pre-existing partial threading
     prof["stale_links"] = rng.choice([0, 0, 0.5])
+    prof["switches"] = rng.choice([0, 0, 0.4])  # two-way branches written as scf.index_switch
     prof["while_loops"] = rng.choice([0, 0, 0.4])
     prof["state_loops"] = rng.choice([0, 0, 0.6])  # hand-threaded loops that already carry an accelerator's state  # counted loops written as scf.while  # ... some of it stale (something was inserted after the IR had been threaded)
     ast = G.AccfgGen(rng, prof).program()
